@@ -71,6 +71,28 @@ theorem mem_zipNames (streams pkg temp : List String) (n : String) :
         · exact Or.inl (Or.inr ⟨hp, hs⟩)
         · exact Or.inr ⟨h, hp, hs⟩
 
+/-- the listing is, as a multiset, the union of the three key sets: it is a permutation of every
+duplicate-free list `u` that has exactly the names held in one of the three collections -/
+theorem zipNames_perm_of_union {streams pkg temp u : List String}
+    (hs : streams.Nodup) (hp : pkg.Nodup) (ht : temp.Nodup) (hu : u.Nodup)
+    (h : ∀ n, n ∈ u ↔ n ∈ streams ∨ n ∈ pkg ∨ n ∈ temp) :
+    List.Perm (zipNames streams pkg temp) u :=
+  (List.perm_ext_iff_of_nodup (zipNames_nodup hs hp ht) hu).2
+    (fun n => (mem_zipNames streams pkg temp n).trans (h n).symm)
+
+/-- which tier (File.Pkg / File.tempFiles) holds a part does not change the multiset of names written -/
+theorem zipNames_tier_independent {streams pkg1 temp1 pkg2 temp2 : List String}
+    (hs : streams.Nodup) (hp1 : pkg1.Nodup) (ht1 : temp1.Nodup) (hp2 : pkg2.Nodup) (ht2 : temp2.Nodup)
+    (h : ∀ n, (n ∈ pkg1 ∨ n ∈ temp1) ↔ (n ∈ pkg2 ∨ n ∈ temp2)) :
+    List.Perm (zipNames streams pkg1 temp1) (zipNames streams pkg2 temp2) :=
+  zipNames_perm_of_union hs hp1 ht1 (zipNames_nodup hs hp2 ht2)
+    (fun n => (mem_zipNames streams pkg2 temp2 n).trans (or_congr_right (h n).symm))
+
+/-- the *order* of the listing does depend on the tier split (Pkg keys descending first, then the
+spilled-only names), so a permutation is the strongest tier-independent statement -/
+theorem order_depends_on_tier :
+    zipNames [] ["xl/a.xml", "xl/z.xml"] [] ≠ zipNames [] ["xl/a.xml"] ["xl/z.xml"] := by decide
+
 /-- why the temp loop needs the test against File.streams: a worksheet that was spilled at open and
 rewritten with the stream writer (in File.streams and in File.tempFiles, not in File.Pkg) was written twice -/
 theorem old_temp_loop_duplicates :
